@@ -161,3 +161,46 @@ def _canonicalise(tree):
     tree.body = holder.body[:nfirst] + imports + holder.body[nfirst:]
     ast.fix_missing_locations(tree)
     return tree
+
+
+def inline_test_only_locals(fn):
+    """`v = E` immediately followed by `if v:` / `if not v:` where the local v occurs nowhere else in the function is
+    `if E:` / `if not E:` (E is evaluated once, at the same point, and v cannot be observed).  Rewrites fn in place."""
+    counts = {}
+    for n in ast.walk(fn):
+        if isinstance(n, ast.Name):
+            counts[n.id] = counts.get(n.id, 0) + 1
+        elif isinstance(n, ast.arg):
+            counts[n.arg] = counts.get(n.arg, 0) + 10
+        elif isinstance(n, (ast.Global, ast.Nonlocal)):
+            for x in n.names:
+                counts[x] = counts.get(x, 0) + 10
+
+    def block(stmts):
+        out, i = [], 0
+        while i < len(stmts):
+            s = stmts[i]
+            nxt = stmts[i + 1] if i + 1 < len(stmts) else None
+            if (isinstance(s, ast.Assign) and len(s.targets) == 1 and isinstance(s.targets[0], ast.Name)
+                    and counts.get(s.targets[0].id) == 2 and isinstance(nxt, ast.If)):
+                v, t = s.targets[0].id, nxt.test
+                if isinstance(t, ast.Name) and t.id == v:
+                    nxt.test = s.value
+                    i += 1
+                    continue
+                if isinstance(t, ast.UnaryOp) and isinstance(t.op, ast.Not) and isinstance(t.operand, ast.Name) \
+                        and t.operand.id == v:
+                    t.operand = s.value
+                    i += 1
+                    continue
+            out.append(s)
+            i += 1
+        for s in out:
+            for f in ("body", "orelse", "finalbody"):
+                if isinstance(getattr(s, f, None), list) and not isinstance(s, (ast.FunctionDef, ast.ClassDef)):
+                    setattr(s, f, block(getattr(s, f)))
+            for h in getattr(s, "handlers", []) or []:
+                h.body = block(h.body)
+        return out
+    fn.body = block(fn.body)
+    return fn
